@@ -10,6 +10,9 @@ with chk.Sodium():
     cfgs = {}
     for p in sorted(glob.glob(os.path.join(VERIF, "checks", "C*.py"))):
         pid = os.path.basename(p)[:-3]
+        ready = set(open(os.path.join(VERIF, "checks", "READY.txt")).read().split())
+        if pid not in ready:
+            continue
         cfg, _ = chk.load_config(pid)
         if cfg.get("not_applicable"):
             continue
@@ -31,8 +34,13 @@ with chk.Sodium():
                 ok = False
                 print(out[-2000:])
     chk.regen_makefile()
-    rc, out, dt = chk.run("make -j16 -k", cwd=chk.COQ, timeout=7200)
-    print("coq make all rc=%d %.0fs" % (rc, dt), flush=True)
+    targets = []
+    for pid, cfg in cfgs.items():
+        targets.append(cfg["props"][:-2] + ".vo")
+        if cfg.get("runner"):
+            targets.append(cfg["runner"]["module"].replace("Verif.", "").replace(".", "/") + ".vo")
+    rc, out, dt = chk.run("make -j16 -k " + " ".join(sorted(set(targets))), cwd=chk.COQ, timeout=7200)
+    print("coq make (registered checks) rc=%d %.0fs" % (rc, dt), flush=True)
     if rc != 0:
         ok = False
         print(out[-5000:])
